@@ -923,3 +923,35 @@ func VerifC12_MySQLExecuteRewriteLayout() {
 		verif.Assert(verif.Eq(out[i], params[i]), "untouched-parameter-identical")
 	}
 }
+
+// VerifC04_MySQLSetVariables: MySQL SQL-level prepared statements take their arguments from user variables; acra
+// protects `SET @<table>__<column> = 'value'` for a protected column. Whatever else the same SET assigns (before or
+// after), the forwarded statement carries the protected value only in protected form and the rest unchanged.
+func VerifC04_MySQLSetVariables() {
+	store := verifKeys()
+	h, ctx, parser := verifProxy(store, "A", config.CryptoEnvelopeTypeAcraBlock)
+	lit := verifMarker("literal", 3)
+	skels := []string{
+		"set @t__secret = '%s'",
+		"set @t__secret = '%s', @id = 7",
+		"set @id = 7, @t__secret = '%s'",
+		"set @t__secret = '%s', @note = 'keep'",
+	}
+	k := verif.Choose("statement", 0, len(skels)-1)
+	q := verifFill(skels[k], lit)
+	obj, changed, err := h.queryObserverManager.OnQuery(ctx, emysql.NewOnQueryObjectFromQuery(q, parser))
+	verif.Reach("observed")
+	verif.Assert(err == nil, "no-error")
+	if err != nil {
+		return
+	}
+	// the proxy replaces the packet's query only when an observer reports a change
+	fwd := q
+	if changed {
+		fwd = obj.Query()
+	}
+	verif.Assert(!verif.Contains([]byte(fwd), lit), "plaintext-not-forwarded")
+	if k == 3 {
+		verif.Assert(strings.Contains(fwd, "'keep'"), "uncovered-assignment-unchanged")
+	}
+}
